@@ -20,12 +20,25 @@ package writer
 import (
 	"bytes"
 	"fmt"
+	"strconv"
 
 	jp "github.com/buger/jsonparser"
 	. "github.com/siglens/siglens/pkg/segment/utils"
 	"github.com/siglens/siglens/pkg/utils"
 	log "github.com/sirupsen/logrus"
 )
+
+// parseJsonInt parses an integer literal. jsonparser's overflow detection (b < v after 10*v+d)
+// misses some literals beyond the int64 range (e.g. 22212344287336554000 wraps around to
+// 3765600213627002384), so literals long enough to overflow are re-checked with strconv; an
+// error makes the callers fall back to float64 like for any other out-of-range integer.
+func parseJsonInt(value []byte) (int64, error) {
+	numVal, err := jp.ParseInt(value)
+	if err == nil && len(value) >= 19 {
+		return strconv.ParseInt(string(value), 10, 64)
+	}
+	return numVal, err
+}
 
 func ParseRawJsonObject(currKey string, data []byte, tsKey *string,
 	jsParsingStackbuf []byte, ple *ParsedLogEvent) error {
@@ -66,7 +79,7 @@ func ParseRawJsonObject(currKey string, data []byte, tsKey *string,
 				parseSingleString(finalKey, tsKey, value, ple)
 			}
 		case jp.Number:
-			numVal, err := jp.ParseInt(value)
+			numVal, err := parseJsonInt(value)
 			if err != nil {
 				fltVal, err := jp.ParseFloat(value)
 				if err != nil {
@@ -135,7 +148,7 @@ func parseNonJaegerRawJsonArray(currKey string, data []byte, tsKey *string,
 				parseSingleString(finalKey, tsKey, value, ple)
 			}
 		case jp.Number:
-			numVal, encErr := jp.ParseInt(value)
+			numVal, encErr := parseJsonInt(value)
 			if encErr != nil {
 				fltVal, encErr := jp.ParseFloat(value)
 				if encErr != nil {
